@@ -5,7 +5,7 @@ import vlib
 from vlib import Broken, log
 
 CFGS = {
-    "default": {"protoTime": False, "protoArrays": False, "null": True, "jsonany": False, "bq": False},
+    "default": {"protoTime": False, "protoArrays": False, "null": True, "jsonany": False, "bq": True},
     "pt": {"protoTime": True, "protoArrays": False, "null": True, "jsonany": False, "bq": False},
     "pa": {"protoTime": False, "protoArrays": True, "null": True, "jsonany": False, "bq": False},
     "both": {"protoTime": True, "protoArrays": True, "null": True, "jsonany": False, "bq": False},
@@ -19,8 +19,8 @@ def mc_generic(work, module, consts, invariants, timeout=3000, spec="Spec"):
     cfg = "CONSTANTS\n%sSPECIFICATION %s\nINVARIANTS %s EmitCase\nCHECK_DEADLOCK FALSE\n" % (consts, spec, invariants)
     out, st = vlib.tlc(work, module, cfg, workers=vlib.NCPU, timeout=timeout, heap="8g")
     if "is violated" in out or "Error:" in out or st["rc"] != 0:
-        brief = "\n".join(l[:300] for l in out.splitlines() if not l.startswith('<<"CASE"'))
-        raise Broken("design check %s failed - the model itself violates its invariants or TLC broke:\n%s" % (module, brief[-3000:]))
+        brief = vlib.tlc_brief(out)
+        raise Broken("design check %s failed - the model itself violates its invariants or TLC broke:\n%s" % (module, brief))
     cases = []
     for line in sorted(l for l in out.splitlines() if l.startswith('<<"CASE"')):      # TLC's workers print in any order: ids must not depend on it
         m = CASE_RE.match(line)
@@ -36,8 +36,8 @@ def mc_codec(work, cfgs, emit, invariants="RoundTrip Walkable MatcherSound Proto
            % (", ".join('"%s"' % c for c in cfgs), "TRUE" if emit else "FALSE", extra, invariants))
     out, st = vlib.tlc(work, module, cfg, workers=vlib.NCPU, timeout=3000, heap="8g")
     if "is violated" in out or "Error:" in out or st["rc"] != 0:
-        brief = "\n".join(l[:300] for l in out.splitlines() if not l.startswith('<<"CASE"'))
-        raise Broken("design check %s failed - the model itself violates its invariants or TLC broke:\n%s" % (module, brief[-3000:]))
+        brief = vlib.tlc_brief(out)
+        raise Broken("design check %s failed - the model itself violates its invariants or TLC broke:\n%s" % (module, brief))
     cases = []
     for line in sorted(l for l in out.splitlines() if l.startswith('<<"CASE"')):
         m = CASE_RE.match(line)
